@@ -114,12 +114,16 @@ def shuffled_stage(ctx: core.Ctx, cases: list[dict], n_inst: int) -> None:
             vals = above + above[:0] if fn == "oil_compressibility_undersat_Spivey" else below + above
             if fn == "oil_compressibility_undersat_Spivey":
                 vals = sorted(rng.uniform(1.02 * pb, min(2.5 * pb, drv.P_MAX), 6))
-            for dt, two_d in (("f64", False), ("i64", False), ("f64", True)):
+            for dt, two_d in (("f64", False), ("i64", False), ("f64", True), ("f64", "F"), ("f64", "T")):
                 arr = np.roll(np.array(vals, dtype=drv.NP_DTYPE[dt]), 2)
                 if two_d:
                     arr = arr.reshape(2, 3)   # a field p[time, block]: judged only if the function accepts it (returns)
+                if two_d == "F":
+                    arr = np.asfortranarray(arr)          # the same field stored column-major (DataFrame.to_numpy() of several columns)
+                elif two_d == "T":
+                    arr = np.ascontiguousarray(arr.T).T   # the same field as the transpose of a p[block, time] array
                 before = drv.digest(arr)
-                key = f"shuffled/{fn}/{dt}{'/2d' if two_d else ''}#{i}"
+                key = f"shuffled/{fn}/{dt}{'/2d' + (two_d if isinstance(two_d, str) else '') if two_d else ''}#{i}"
                 ctx.case(key)
                 try:
                     res = np.asarray(arr_call(arr))
@@ -147,7 +151,8 @@ def shuffled_stage(ctx: core.Ctx, cases: list[dict], n_inst: int) -> None:
                 if what:
                     ctx.violation(what[0], f"{fn} on shuffled {dt} array {arr.tolist()} (fluid T={inst['T']} API={inst['API']} "
                                   f"gg={inst['gg']:.6g} GOR={inst['R']} p_b={pb!r}): {what[1]}",
-                                  replay={"stage": "shuffled", "fn": fn, "dtype": dt, "inst": inst, "arr": arr.tolist()})
+                                  replay={"stage": "shuffled", "fn": fn, "dtype": dt, "inst": inst, "arr": arr.tolist(),
+                                          "order": "F" if (arr.ndim == 2 and arr.flags.f_contiguous) else "C"})
 
 
 def replay(ctx: core.Ctx, obj: dict) -> None:
@@ -155,6 +160,8 @@ def replay(ctx: core.Ctx, obj: dict) -> None:
     if r.get("stage") == "shuffled":
         arr_call, sc_call = drv.calls(r["inst"])[r["fn"]]
         arr = np.array(r["arr"], dtype=drv.NP_DTYPE[r["dtype"]])
+        if r.get("order") == "F":
+            arr = np.asfortranarray(arr)
         print("array :", np.asarray(arr_call(arr)).tolist())
         print("scalar:", [float(sc_call(float(x))) for x in arr.ravel()])
         ctx.case("replay-1"); ctx.case("replay-2")
